@@ -266,7 +266,7 @@ def minmax_models(tier):
         dict(module="MinMax", name="MC_MinMax",
              cfg=dict(constants=dict(MaxLen=q(tier, 5, 6), MaxRank=3, Emit=False), invariants=["ScanInv", "SkipScanInv", "DoneOK"], properties=["Terminates"])),
         dict(module="MinMax", name="MC_MinMax_emit", emit=True,
-             cfg=dict(constants=dict(MaxLen=q(tier, 4, 5), MaxRank=3, Emit=True), invariants=["DoneOK", "EmitInv"])),
+             cfg=dict(constants=dict(MaxLen=q(tier, 5, 5), MaxRank=3, Emit=True), invariants=["DoneOK", "EmitInv"])),
     ]
 
 
@@ -359,13 +359,13 @@ def C11(tier):
 def C13(tier):
     models = [
         dict(module="Lookup", name="MC_Lookup",
-             cfg=dict(constants=dict(MaxLen=q(tier, 4, 5), Dom=q(tier, 4, 5), Emit=False), invariants=["EdgesOK", "LookupOK", "AccessorsOK"])),
+             cfg=dict(constants=dict(MaxLen=q(tier, 5, 6), Dom=q(tier, 5, 5), Emit=False), invariants=["EdgesOK", "LookupOK", "AccessorsOK"])),
         dict(module="Lookup", name="MC_Lookup_emit", emit=True,
-             cfg=dict(constants=dict(MaxLen=q(tier, 3, 4), Dom=4, Emit=True), invariants=["EdgesOK", "EmitInv"])),
+             cfg=dict(constants=dict(MaxLen=q(tier, 4, 5), Dom=4, Emit=True), invariants=["EdgesOK", "EmitInv"])),
     ]
     stages = [
         hist_stage("replay_model", cases_from=["MC_Lookup_emit"]),
-        hist_stage("random", gen=dict(count=(1500, 15000), params={"kinds": "edges/grid"})),
+        hist_stage("random", gen=dict(count=(3000, 20000), params={"kinds": "edges/grid"})),
     ]
     return dict(models=models, stages=stages, nontrivial=lambda o: len(o.get("input", o.get("axes", []))) >= 1, exhaustive=True,
                 rule="every edge sequence (duplicates and every input order included) of length <= N over a D-value domain emitted by TLC, probed "
@@ -382,7 +382,7 @@ def C12(tier):
              cfg=dict(constants=dict(MaxVal=0, Float=True, P=q(tier, 3, 4), EMin=0, EMax=q(tier, 5, 6), FixF4=True), invariants=["SafetyInv", "DoneOK"], properties=["Terminates"])),
     ]
     stages = [
-        hist_stage("strategies", gen=dict(count=(1500, 12000), params={"kinds": "strategy"}), timeout_ms=4000),
+        hist_stage("strategies", gen=dict(count=(4000, 20000), params={"kinds": "strategy"}), timeout_ms=4000),
     ]
     return dict(models=models, stages=stages, nontrivial=lambda o: o.get("n", 0) >= 2, exhaustive=False,
                 rule="random data sets (length 0..300, thorough: to 10^4) over i32/i64/u32 and N64 (quarters, 0.3+0.1k, 1e9+0.001k, 1e16+2k, thirds), "
@@ -453,7 +453,7 @@ def C07(tier):
 def C08(tier):
     return dict(models=summary_models(tier)[:0] + [
                     dict(module="Summary", name="MC_Summary", cfg=dict(constants=dict(MaxN=3, MaxR=2, MaxP=2, FixF5=True), invariants=["ShiftOK"]))],
-                stages=[num_stage("cov_pearson", "corr", (2500, 25000))],
+                stages=[num_stage("cov_pearson", "corr", (6000, 40000))],
                 nontrivial=lambda o: len(o.get("rows", [])) >= 2, exhaustive=False,
                 rule="1..4 variables x 2..5 observations of small integers (offsets to 2^20), ddof in {0, 1/2, 1}, f32/f64, C/F/sliced/transposed inputs; "
                      "cov against the exact rational, symmetry, diagonal; pearson by r^2 var_i var_j = cov_ij^2 with sign, diagonal 1, range; "
@@ -463,7 +463,7 @@ def C08(tier):
 
 def C09(tier):
     return dict(models=[dict(module="Deviation", name="MC_Deviation", cfg=dict(constants=dict(MaxN=q(tier, 3, 4), MaxV=2), invariants=["LawsOK"]))],
-                stages=[num_stage("deviation", "dev", (2500, 25000))],
+                stages=[num_stage("deviation", "dev", (6000, 40000))],
                 nontrivial=lambda o: len(o.get("a", [])) >= 2, exhaustive=False,
                 rule="pairs of same-shaped arrays (1..3-D) in independently chosen layouts, i32/i64/BigInt exact and f32/f64 on the quarter grid (exact "
                      "after scaling); all ten measures, with swapped and with identical arguments",
@@ -472,7 +472,7 @@ def C09(tier):
 
 def C10(tier):
     return dict(models=[dict(module="Entropy", name="MC_Entropy", cfg=dict(constants=dict(MaxN=q(tier, 3, 3), M=2), invariants=["GibbsOK", "ZeroTermOK"]))],
-                stages=[num_stage("entropy", "ent", (2500, 25000))],
+                stages=[num_stage("entropy", "ent", (6000, 40000))],
                 nontrivial=lambda o: len(o.get("a", [])) >= 2, exhaustive=False,
                 rule="dyadic distributions a/2^m (<= 6 cells, normalised or not) with zeros in p and/or q, NaN at any position of p or q (incl. under a "
                      "zero of p), negative q, f32/f64, 1..3-D shapes, p and q in different layouts; values against a 2^-20 table of ln k, identities, "
